@@ -59,9 +59,14 @@ func (b *message) ReadUint32() (r uint32) {
 }
 
 func (b *message) ReadString() (r string) {
-	end := b.offset
 	maximum := uint32(len(b.data))
-	for ; end != maximum && b.data[end] != 0; end++ {
+	if b.offset >= maximum {
+		// nothing left to read (the previous string was not terminated)
+		b.offset = maximum
+		return ""
+	}
+	end := b.offset
+	for ; end < maximum && b.data[end] != 0; end++ {
 	}
 	r = string(b.data[b.offset:end])
 	b.offset = end + 1
